@@ -453,50 +453,46 @@ func c14Validate(a lib.Args, res *lib.Result) error {
 		for i, c := range cases {
 			g := c.g
 			f := strings.Fields(out[3*i])
-			if len(f) != 4 {
+			if len(f) != 2 {
 				return fmt.Errorf("policy validate: bad answer %q for %s", out[3*i], lines[3*i])
 			}
-			mid, best, worst, verdict := f[0], f[1], f[2], f[3]
+			mres, verdict := f[0], f[1]
 			in := map[string]interface{}{"check": "validate", "document": c.text, "bucket": g.bucket, "accounts": c14Accounts,
 				"gen": map[string]interface{}{"Doc": g.doc, "Bucket": g.bucket, "Class": g.class, "NF": g.nfaults, "Judge": g.judge}}
 			impl := fmt.Sprintf("accepted %d/%d, refused %d/%d %v", c.accepts, c14Runs, c.refuses, c14Runs, keysOf(c.errNames))
-			model := fmt.Sprintf("model(id,s3:*-first,s3:*-last)=%s,%s,%s spec=%s", mid, best, worst, verdict)
+			model := fmt.Sprintf("model=%s spec=%s", mres, verdict)
 			if sampled < 3 {
 				sampled++
 				res.Sample(map[string]interface{}{"document": c.text, "bucket": g.bucket, "impl": impl, "model": model})
 			}
-			orderDep := best == "ok" && worst != "ok"
-			knownClass := orderDep || g.hasPrefixFault() || g.hasMissing()
 			// ---- property (Spec verdict on the implementation's observation)
 			if g.judge {
 				switch {
 				case c.accepts > 0 && c.refuses > 0:
 					res.Fail(lib.Failure{Kind: "property", Signature: "validate:map-order-dependent",
-						What: "the same document is sometimes accepted and sometimes refused (the action/resource-kind loop ranges over a Go map and breaks at s3:*)", Input: in, Impl: impl, Model: model})
+						What: "the same document is sometimes accepted and sometimes refused", Input: in, Impl: impl, Model: model})
 				case verdict == "refuse" && c.accepts > 0:
 					sig, what := "validate:accepts-illformed", "a document that is not a valid policy for the bucket is accepted"
 					switch {
-					case orderDep:
-						sig, what = "validate:map-order-dependent", "an ill-formed document (s3:* next to an action with no resource of its kind) was accepted in all runs; acceptance depends on Go map order"
-					case g.hasPrefixFault():
-						sig, what = "validate:resource-prefix-of-other-bucket", "a resource whose bucket component merely starts with the bucket name (other bucket / wildcard) is accepted: Resources.Validate uses HasPrefix(resource, bucket)"
 					case g.hasMissing():
 						sig, what = "validate:missing-field", "a statement without Principal, Action or Resource is accepted (absent members leave nil maps that every check passes)"
+					case g.hasPrefixFault():
+						sig, what = "validate:resource-prefix-of-other-bucket", "a resource whose bucket component merely starts with the bucket name (other bucket / wildcard) is accepted"
 					}
 					res.Fail(lib.Failure{Kind: "property", Signature: sig, What: what, Input: in, Impl: impl, Model: model})
 				case verdict == "accept" && c.refuses > 0:
 					res.Fail(lib.Failure{Kind: "property", Signature: "validate:refuses-wellformed", What: "a well-formed policy for the bucket is refused", Input: in, Impl: impl, Model: model})
 				}
-				// ---- model vs spec
-				if verdict == "accept" && (best != "ok" || worst != "ok") || verdict == "refuse" && best == "ok" && !knownClass {
-					res.Fail(lib.Failure{Kind: "model-vs-spec", Signature: "validate", What: "Model.Policy.validateDocument contradicts Spec.Policy.verdict outside the known classes", Input: in, Model: model})
+				// ---- model vs spec (validate_iff_wellformed_partial: the only excluded class is missing-field)
+				if verdict == "accept" && mres != "ok" || verdict == "refuse" && mres == "ok" && !g.hasMissing() {
+					res.Fail(lib.Failure{Kind: "model-vs-spec", Signature: "validate", What: "Model.Policy.validateDocument contradicts Spec.Policy.verdict outside the known class", Input: in, Model: model})
 				}
 			}
-			// ---- correspondence: document level
+			// ---- correspondence: document level (one outcome: validate_order_independent)
 			if g.doc.Kind == "d" || g.judge {
-				if c.accepts > 0 && best != "ok" || c.refuses > 0 && worst == "ok" {
-					res.Fail(lib.Failure{Kind: "correspondence", Signature: "ValidatePolicyDocument", What: "outcome of ValidatePolicyDocument outside the set predicted by Model.Policy.validateDocument", Input: in, Impl: impl, Model: model})
-				} else if g.nfaults <= 1 && mid == best && mid == worst && len(c.errNames) == 1 && c.errNames[mid] == 0 {
+				if c.accepts > 0 && mres != "ok" || c.refuses > 0 && mres == "ok" {
+					res.Fail(lib.Failure{Kind: "correspondence", Signature: "ValidatePolicyDocument", What: "outcome of ValidatePolicyDocument differs from Model.Policy.validateDocument", Input: in, Impl: impl, Model: model})
+				} else if g.nfaults <= 1 && len(c.errNames) == 1 && c.errNames[mres] == 0 {
 					res.Fail(lib.Failure{Kind: "correspondence", Signature: "ValidatePolicyDocument:error-code", What: "error of ValidatePolicyDocument differs from the model's", Input: in, Impl: impl, Model: model})
 				}
 			}
@@ -516,14 +512,10 @@ func c14Validate(a lib.Args, res *lib.Result) error {
 			}
 			// ---- correspondence: BucketPolicy.Validate on the real decoded structure
 			if c.decoded != nil {
-				pf := strings.Fields(out[3*i+2])
-				if len(pf) != 3 {
-					return fmt.Errorf("policy validated: bad answer %q", out[3*i+2])
-				}
-				okSet := map[string]bool{pf[0]: true, pf[1]: true, pf[2]: true}
+				want := strings.TrimSpace(out[3*i+2])
 				for k := range c.post {
-					if !okSet[k] {
-						res.Fail(lib.Failure{Kind: "correspondence", Signature: "BucketPolicy.Validate", What: "outcome of BucketPolicy.Validate on the decoded policy outside the set predicted by Model.Policy.validatePolicy",
+					if k != want {
+						res.Fail(lib.Failure{Kind: "correspondence", Signature: "BucketPolicy.Validate", What: "outcome of BucketPolicy.Validate on the decoded policy differs from Model.Policy.validatePolicy",
 							Input: in, Impl: fmt.Sprint(keysOf(c.post)), Model: out[3*i+2]})
 						break
 					}
@@ -548,7 +540,7 @@ func c14Validate(a lib.Args, res *lib.Result) error {
 		if c.decoded != nil {
 			lines = append(lines, fmt.Sprintf("policy validated %s %s %s", lib.HexS(g.bucket), c14List(c14Accounts), c14Policy(c14FromReal(bp))))
 		} else {
-			lines = append(lines, "policy validated - _ _")
+			lines = append(lines, "policy validated - _ _") // placeholder (answer unused)
 		}
 		out := "refused"
 		if c.accepts > 0 && c.refuses > 0 {
@@ -738,15 +730,10 @@ func c14Units(a lib.Args, res *lib.Result) error {
 		}
 	}
 	for i, p := range pcs {
-		ans := out[len(cases)+i]
-		pf := strings.Fields(ans)
-		okSet := map[string]bool{}
-		for _, x := range pf {
-			okSet[x] = true
-		}
+		ans := strings.TrimSpace(out[len(cases)+i])
 		for k := range p.post {
-			if !okSet[k] {
-				res.Fail(lib.Failure{Kind: "correspondence", Signature: "BucketPolicy.Validate", What: "outcome of BucketPolicy.Validate on a constructed policy outside the set predicted by Model.Policy.validatePolicy",
+			if k != ans {
+				res.Fail(lib.Failure{Kind: "correspondence", Signature: "BucketPolicy.Validate", What: "outcome of BucketPolicy.Validate on a constructed policy differs from Model.Policy.validatePolicy",
 					Input: map[string]interface{}{"check": "unit", "policy": p.pol, "bucket": p.bucket}, Impl: fmt.Sprint(keysOf(p.post)), Model: ans})
 				break
 			}
